@@ -1,6 +1,8 @@
 /-
   JRV.Model.Wire — bytes on the wire: `utils.to_bytes/from_bytes`, the client's response
-  buffering (`JSONTarget`), the server's chunked body read (`do_POST`), reply/CGI framing,
+  buffering (`JSONTarget`), the server's chunked body read (`do_POST`), the reply of `do_POST` for
+  every way its `try` block ends (200 with a text / "" / `None`, 500 with the fault text), CGI
+  framing for the codecs `encoding=` may name (UTF-8, ascii, latin-1; others `Unmodelled`),
   request target and URL scheme checks of `ServerProxy.__init__`/`_run_request`.
 
   Bytes are `List UInt8` (so that read splitting is `take`/`drop`); UTF-8 is Lean core's verified
@@ -80,15 +82,60 @@ def clientHeaders (strOf : PyVal → String) (contentType userAgent : String) (b
     (extra : Headers.HDict) (stack : List Headers.HDict) : List (String × String) :=
   Headers.sendContent strOf contentType (toBytes body).length userAgent extra stack
 
-/-- Header lines and body bytes of the HTTP server's reply (`do_POST`). -/
-def serverReply (contentType : String) (response : String) : List (String × String) × Bytes :=
-  let b := toBytes response
+/-- Header lines and body bytes of the HTTP server's reply (`do_POST`, the code after the
+    `try/except`): `response is None → ""`, then `to_bytes`, `Content-type` from the configuration,
+    `Content-length` = `len` of the converted bytes; the bytes are written only when non-empty
+    (so `[]` also stands for "nothing written"). -/
+def serverReply (contentType : String) (response : Option String) : List (String × String) × Bytes :=
+  let b := toBytes (response.getD "")
   ([("Content-type", contentType), ("Content-length", toString b.length)], b)
 
-/-- Header lines and body bytes printed by the CGI handler. -/
-def cgiReply (contentType : String) (response : String) : List (String × String) × Bytes :=
-  let b := toBytes response
-  ([("Content-Type", contentType), ("Content-Length", toString b.length)], b)
+/-- How the `try` block of `do_POST` ends: the dispatcher returned a text or `None`, or something
+    raised (bad `Content-Length` header, undecodable body, dispatcher exception). -/
+inductive TryOutcome where
+  | returned (response : Option String)
+  | raised
+deriving Repr, DecidableEq
+
+/-- Status line and framing of the reply for each way the `try` block can end.  `faultText` is the
+    text `fault.response()` produced (whatever it is: only its framing is modelled). -/
+def doPostReply (contentType faultText : String) : TryOutcome → Nat × List (String × String) × Bytes
+  | .returned r => (200, serverReply contentType r)
+  | .raised => (500, serverReply contentType (some faultText))
+
+/-- The whole of `do_POST` for a valid RPC path: header `content-length` (`none` = missing or not an
+    integer: `int(...)` raises), read loop, single decode, dispatcher, reply. -/
+def doPost (maxChunk : Nat) (contentType faultText : String) (contentLength : Option Nat) (stream : Bytes)
+    (reads : List Nat) (dispatch : String → TryOutcome) : Nat × List (String × String) × Bytes :=
+  match contentLength with
+  | none => doPostReply contentType faultText .raised
+  | some cl =>
+    match serverBody maxChunk cl stream reads with
+    | .ok data => doPostReply contentType faultText (dispatch data)
+    | .error _ => doPostReply contentType faultText .raised
+
+/-- Codec names are compared case-insensitively (`"UTF-8"` = `"utf-8"`). -/
+def lowerName (s : String) : String := String.ofList (s.toList.map Char.toLower)
+
+/-- `response.encode(self.encoding)` of the CGI handler, for the codecs the model describes:
+    the UTF-8 names, `ascii` and `latin-1` (one byte per character, `UnicodeEncodeError` beyond the
+    codec's range).  Any other codec name (utf-16, unknown names → `LookupError`, …) is `Unmodelled`. -/
+def cgiEncode (encoding : String) (s : String) : PyM Bytes :=
+  let e := lowerName encoding
+  if e == "utf-8" || e == "utf8" || e == "utf_8" then pure (toBytes s)
+  else if e == "ascii" || e == "us-ascii" then
+    if s.toList.all (fun c => c.toNat < 128) then pure (s.toList.map fun c => UInt8.ofNat c.toNat)
+    else raise "UnicodeEncodeError"
+  else if e == "latin-1" || e == "latin1" || e == "iso-8859-1" then
+    if s.toList.all (fun c => c.toNat < 256) then pure (s.toList.map fun c => UInt8.ofNat c.toNat)
+    else raise "UnicodeEncodeError"
+  else raise "Unmodelled"
+
+/-- Header lines and body bytes printed by the CGI handler: the text is encoded first (a failing
+    encode raises before anything is printed), `Content-Length` is `len` of the encoded bytes. -/
+def cgiReply (encoding contentType : String) (response : String) : PyM (List (String × String) × Bytes) := do
+  let b ← cgiEncode encoding response
+  pure ([("Content-Type", contentType), ("Content-Length", toString b.length)], b)
 
 /- ---------- URL handling ---------- -/
 
